@@ -477,3 +477,212 @@ Proof.
   split; [reflexivity|]. split; [now rewrite read_bytes_print|exact O2].
 Qed.
 End Bytes.
+
+(* ====================================================================================== *)
+(* Round 4: the names the reader hands out are printable (closes load_save_bytes_partial)  *)
+(* ====================================================================================== *)
+(* 1. every byte of a token of a statement is a byte of the text *)
+Lemma split_lines_in l : forall x c, In x (split_lines l) -> In c x -> In c l.
+Proof.
+  induction l as [|c0 r IH]; intros x c Hx Hc; [destruct Hx|]. cbn [split_lines] in Hx.
+  destruct (c0 =? 10).
+  - destruct Hx as [<-|Hx]; [destruct Hc|]. right. eapply IH; eauto.
+  - destruct (split_lines r) as [|x0 xs] eqn:E.
+    + destruct Hx as [<-|[]]. destruct Hc as [<-|[]]. now left.
+    + destruct Hx as [<-|Hx].
+      * destruct Hc as [<-|Hc]; [now left|]. right. apply (IH x0); [now left|exact Hc].
+      * right. apply (IH x); [now right|exact Hc].
+Qed.
+Lemma drop_cr_in l c : In c (drop_cr l) -> In c l.
+Proof. destruct (drop_cr_cases l) as [->|E]; [auto|]. intros H. rewrite E. apply in_or_app. now left. Qed.
+Lemma fields_in l : forall t c, In t (fields l) -> In c t -> In c l.
+Proof.
+  induction l as [|c0 r IH]; intros t c Ht Hc; [destruct Ht|]. cbn [fields] in Ht.
+  destruct (is_space c0); [right; eapply IH; eauto|].
+  destruct r as [|d r']; [destruct Ht as [<-|[]]; exact Hc|].
+  destruct (is_space d).
+  - destruct Ht as [<-|Ht]; [destruct Hc as [<-|[]]; now left|]. right. eapply IH; eauto.
+  - destruct (fields (d :: r')) as [|x xs] eqn:E.
+    + destruct Ht as [<-|[]]. destruct Hc as [<-|[]]. now left.
+    + destruct Ht as [<-|Ht].
+      * destruct Hc as [<-|Hc]; [now left|]. right. apply (IH x); [now left|exact Hc].
+      * right. apply (IH t); [now right|exact Hc].
+Qed.
+Lemma stmts_bytes text : bytes_ok text -> Forall (Forall bytes_ok) (stmts text).
+Proof.
+  intros B. unfold bytes_ok in *. rewrite Forall_forall in B.
+  apply Forall_forall. intros fs Hfs. apply Forall_forall. intros t Ht. apply Forall_forall. intros c Hc.
+  apply B. unfold stmts in Hfs. apply filter_In in Hfs. destruct Hfs as [Hfs _].
+  apply in_map_iff in Hfs. destruct Hfs as (ln & <- & Hln). unfold scan_lines in Hln.
+  apply in_map_iff in Hln. destruct Hln as (raw & <- & Hraw).
+  eapply split_lines_in; [exact Hraw|]. apply drop_cr_in. eapply fields_in; eauto.
+Qed.
+
+(* 2. a token made of bytes survives the trip through a Coq string *)
+Lemma kw_string_of_bytes t : bytes_ok t -> kw (string_of_bytes t) = t.
+Proof.
+  unfold kw, string_of_bytes, bytes_ok. induction 1 as [|c r Hc Hr IH]; [reflexivity|].
+  cbn [fold_right bytes_of_string]. rewrite IH. f_equal. apply N_ascii_embedding. exact Hc.
+Qed.
+Lemma kw_append a b : kw (a ++ b)%string = kw a ++ kw b.
+Proof. unfold kw. induction a as [|x a IH]; [reflexivity|]. cbn [String.append bytes_of_string app]. now rewrite IH. Qed.
+Lemma kw_concat n : kw (String.concat "" n) = flat_map kw n.
+Proof.
+  induction n as [|s r IH]; [reflexivity|]. destruct r as [|s' r'].
+  - cbn [String.concat flat_map]. now rewrite app_nil_r.
+  - change (String.concat "" (s :: s' :: r')) with (s ++ ("" ++ String.concat "" (s' :: r')))%string.
+    rewrite kw_append. change ("" ++ String.concat "" (s' :: r'))%string with (String.concat "" (s' :: r')).
+    rewrite IH. reflexivity.
+Qed.
+
+(* 3. names of the statements of a byte text, and names built from them, are printable *)
+Definition src_clean (mt : option name) : Prop := match mt with Some n => clean_name n | None => True end.
+Definition line_clean (l : line) : Prop :=
+  match l with G n | UseMtl n | MtlLib n | O n => clean_name n | _ => True end.
+
+Lemma names_clean args : Forall (fun t => cleanb t = true) args -> Forall bytes_ok args -> clean_name (names args).
+Proof.
+  unfold clean_name, names. intros C B. apply Forall_map. rewrite Forall_forall in *. intros t Ht.
+  rewrite kw_string_of_bytes by auto. auto.
+Qed.
+Lemma classify_clean pf pi pri fs : Forall (fun t => cleanb t = true) fs -> Forall bytes_ok fs ->
+  match classify pf pi pri fs with TL l => line_clean l | TBad => True end.
+Proof.
+  intros C B. destruct fs as [|k args]; [exact I|].
+  assert (Hn : clean_name (names args)) by (inversion C; inversion B; subst; now apply names_clean).
+  unfold classify.
+  destruct (beq k (kw "v") || beq k (kw "vn")).
+  { destruct args as [|a [|b [|c r]]]; try (destruct (parse_all pf _); exact I).
+    destruct (pf a), (pf b), (pf c); try exact I. destruct (beq k (kw "v")); exact I. }
+  destruct (beq k (kw "vt")).
+  { destruct args as [|a [|b r]]; try (destruct (parse_all pf _); exact I).
+    destruct (pf a), (pf b); exact I. }
+  destruct (beq k (kw "g")); [exact Hn|]. destruct (beq k (kw "usemtl")); [exact Hn|].
+  destruct (beq k (kw "mtllib")); [exact Hn|]. destruct (beq k (kw "o")); [exact Hn|].
+  destruct (beq k (kw "f")); [|exact I].
+  destruct (parse_all _ args) as [[|a [|b [|c [|d r]]]]|]; exact I.
+Qed.
+Lemma good_prefix_clean tls : Forall (fun tl => match tl with TL l => line_clean l | TBad => True end) tls ->
+  Forall line_clean (fst (good_prefix tls)).
+Proof.
+  induction 1 as [|tl r Hl Hr IH]; [constructor|]. cbn [good_prefix]. destruct tl as [l|]; [|constructor].
+  destruct (good_prefix r) as [ls bad]. cbn [fst] in *. constructor; auto.
+Qed.
+Lemma file_clean pf pi pri text : bytes_ok text -> Forall line_clean (fst (good_prefix (lines_of_bytes pf pi pri text))).
+Proof.
+  intros B. apply good_prefix_clean. unfold lines_of_bytes. apply Forall_map.
+  pose proof (stmts_bytes text B) as SB. destruct (text_layer_total pf pi pri text) as [SC _].
+  rewrite Forall_forall in *. intros fs Hfs. apply classify_clean; [apply (SC fs Hfs)|apply (SB fs Hfs)].
+Qed.
+
+Lemma nosp_flat_kw n : clean_name n -> nosp (flat_map kw n) = true.
+Proof.
+  unfold clean_name, nosp. induction 1 as [|s r Hs Hr IH]; [reflexivity|]. cbn [flat_map].
+  rewrite forallb_app, IH, andb_true_r. apply cleanb_nosp, Hs.
+Qed.
+Lemma mat_written_clean mt : src_clean mt -> clean_name (mat_written mt).
+Proof.
+  destruct mt as [[|s r]|]; cbn [src_clean mat_written]; intros H.
+  - constructor.
+  - constructor; [|constructor]. rewrite kw_concat. cbn [flat_map]. inversion H; subst.
+    apply cleanb_app; [assumption|now apply nosp_flat_kw].
+  - repeat constructor.
+Qed.
+
+(* 4. the invariant through obj.ReadMesh: group names and material names are arguments of g / usemtl lines (or the
+      constant "Default") *)
+Definition mats_clean (mats : list (nat * option name)) : Prop := Forall (fun cm => src_clean (snd cm)) mats.
+Definition mesh_src_clean (m : mesh) : Prop := clean_name (m_name m) /\ mats_clean (m_mats m).
+Definition rstate_clean (st : rstate) : Prop :=
+  Forall mesh_src_clean (r_done st) /\ clean_name (w_name (r_w st)) /\ mats_clean (w_mats (r_w st)).
+
+Lemma set_last_clean mats c : mats_clean mats -> mats_clean (set_last mats c).
+Proof.
+  unfold mats_clean. induction 1 as [|[c0 a] r Ha Hr IH]; [constructor|]. cbn [set_last].
+  destruct r as [|y r']; [repeat constructor; exact Ha|]. constructor; [exact Ha|exact IH].
+Qed.
+Lemma close_mats_clean since mats : mats_clean mats -> mats_clean (close_mats since mats).
+Proof. intros H. unfold close_mats. destruct (_ && _); [now apply set_last_clean|exact H]. Qed.
+Lemma corner_step_names st g c g' p : corner_step st g c = Ok (g', p) -> w_name g' = w_name g /\ w_mats g' = w_mats g.
+Proof.
+  unfold corner_step. destruct (find_idx corner_eqb c (w_tbl g)); [intros [= <- _]; auto|].
+  destruct c as [[[v vt] vn] sp]. destruct (look_req (r_v st) v); try discriminate. cbn [rbind].
+  destruct (look_opt (r_vn st) vn); try discriminate. cbn [rbind].
+  destruct (look_opt (r_vt st) vt); try discriminate. cbn [rbind]. intros [= <- _]. auto.
+Qed.
+Lemma face_step_clean st a b c st' : rstate_clean st -> face_step st a b c = Ok st' -> rstate_clean st'.
+Proof.
+  intros (Hd & Hn & Hm). unfold face_step.
+  destruct (corner_step st (r_w st) a) as [[g1 p1]| |] eqn:E1; try discriminate. cbn [rbind].
+  destruct (corner_step st g1 b) as [[g2 p2]| |] eqn:E2; try discriminate. cbn [rbind].
+  destruct (corner_step st g2 c) as [[g3 p3]| |] eqn:E3; try discriminate. cbn [rbind].
+  intros [= <-]. apply corner_step_names in E1, E2, E3. destruct E1 as [N1 M1], E2 as [N2 M2], E3 as [N3 M3].
+  unfold rstate_clean. cbn [r_done r_w add_tri w_name w_mats]. rewrite N3, N2, N1, M3, M2, M1. auto.
+Qed.
+Lemma default_clean : clean_name default_name.
+Proof. repeat constructor. Qed.
+Lemma step_clean cfg st l st' : line_clean l -> rstate_clean st -> step cfg st l = Ok st' -> rstate_clean st'.
+Proof.
+  intros Hl Hst. pose proof Hst as (Hd & Hn & Hm).
+  destruct l as [p|p|p|n|n|a b c|cs| |n|n|]; cbn [step line_clean] in *.
+  - intros [= <-]. exact Hst.
+  - intros [= <-]. exact Hst.
+  - intros [= <-]. exact Hst.
+  - destruct (nonnil n || bare_g cfg); try discriminate. destruct (nonnil (w_tris (r_w st))).
+    + assert (T : forall mats, mats_clean mats -> mesh_src_clean (to_mesh cfg (r_w st) mats)) by (intros mats Hx; split; assumption).
+      destruct (close_at_g cfg); intros [= <-]; unfold rstate_clean; cbn [r_done r_w wnew w_name w_mats];
+        (split; [apply Forall_app; split; [exact Hd|constructor; [|constructor]; apply T; auto using close_mats_clean]|split; [exact Hl|constructor]]).
+    + intros [= <-]. unfold rstate_clean. cbn [set_w r_done r_w set_name w_name w_mats]. auto.
+  - destruct (nonnil n); try discriminate. intros [= <-]. unfold rstate_clean. cbn [r_done r_w set_mats w_name w_mats].
+    split; [exact Hd|]. split; [exact Hn|]. apply Forall_app. split; [|repeat constructor; exact Hl].
+    destruct (0 <? r_since st)%nat; [|exact Hm]. destruct (nonnil (w_mats (r_w st))); [now apply set_last_clean|].
+    repeat constructor.
+  - now apply face_step_clean.
+  - destruct cs as [|a [|b [|c r]]]; try discriminate. now apply face_step_clean.
+  - discriminate.
+  - destruct (nonnil n); try discriminate. intros [= <-]. exact Hst.
+  - intros [= <-]. exact Hst.
+  - intros [= <-]. exact Hst.
+Qed.
+Lemma run_clean cfg ls : forall st st', Forall line_clean ls -> rstate_clean st -> run cfg st ls = Ok st' -> rstate_clean st'.
+Proof.
+  induction ls as [|l r IH]; intros st st' Hls Hst; cbn [run]; [intros [= <-]; exact Hst|].
+  inversion Hls; subst. destruct (step cfg st l) as [st1| |] eqn:E; try discriminate. cbn [rbind].
+  apply IH; auto. eapply step_clean; eauto.
+Qed.
+Theorem read_names_clean cfg ls gs libs : Forall line_clean ls -> read_gen cfg ls = Ok (gs, libs) -> Forall mesh_src_clean gs.
+Proof.
+  intros Hls. unfold read_gen. destruct (run cfg rinit ls) as [st| |] eqn:E; try discriminate. cbn [rbind].
+  intros [= <- _]. assert (I0 : rstate_clean rinit) by (repeat split; constructor).
+  destruct (run_clean cfg ls rinit st Hls I0 E) as (Hd & Hn & Hm). unfold finish. cbn [fst].
+  apply Forall_app. split; [exact Hd|]. constructor; [|constructor]. split; [exact Hn|]. now apply close_mats_clean.
+Qed.
+
+Section BytesClosed.
+Variables (pf : list N -> option N) (pi : list N -> option Z) (prf : N -> list N) (pri : Z -> list N).
+Hypothesis prf_ok : forall w, cleanb (prf w) = true /\ pf (prf w) = Some w.
+Hypothesis pri_ok : forall z, cleanb (pri z) = true /\ no47 (pri z) = true /\ pi (pri z) = Some z.
+
+Lemma src_mesh_clean m : mesh_src_clean m -> mesh_clean m.
+Proof.
+  intros [Hn Hm]. split; [exact Hn|]. unfold mats_clean in Hm. rewrite Forall_forall in *.
+  intros cm Hc. apply mat_written_clean. auto.
+Qed.
+
+(* Clause 2 over bytes, no side premise left: for every BYTE string (values < 256) whose statements all parse and
+   form a valid triangulated OBJ, read / write / read on bytes succeed and no face is lost or invented. *)
+Theorem load_save_bytes text file :
+  bytes_ok text -> good_prefix (lines_of_bytes pf pi pri text) = (file, false) -> valid file = true ->
+  exists gs1 text2 gs2,
+    read_bytes pf pi pri text = Ok (gs1, lib_names file) /\ map obs gs1 = file_groups file /\
+    write_bytes prf pri None gs1 = Ok text2 /\
+    read_bytes pf pi pri text2 = Ok (gs2, []) /\ map obs gs2 = map gobs_written (file_groups file).
+Proof.
+  intros B G V. destruct (load_save_bytes_partial pf pi prf pri prf_ok pri_ok text file G V) as (gs1 & R1 & O1 & K).
+  assert (C : Forall mesh_clean gs1).
+  { pose proof (file_clean pf pi pri text B) as FC. rewrite G in FC. cbn [fst] in FC.
+    unfold read_bytes in R1. rewrite G in R1.
+    eapply Forall_impl; [exact src_mesh_clean|]. eapply read_names_clean; eauto. }
+  destruct (K C) as (text2 & gs2 & W & R2 & O2). exists gs1, text2, gs2. auto.
+Qed.
+End BytesClosed.
